@@ -73,7 +73,7 @@ var vecOps = func() []vop {
 	for _, op := range []int{5, 6} {
 		t = append(t, vop{fmt: "VOP1", op: op, nsrc: 1, w: [3]int{1, 0, 0}, dw: 1, shift: -1})
 	}
-	for _, op := range []int{7, 8} {
+	for _, op := range []int{7, 8, 28, 30} { // v_cvt_u32_f32, v_cvt_i32_f32, v_trunc_f32, v_rndne_f32
 		t = append(t, vop{fmt: "VOP1", op: op, nsrc: 1, w: [3]int{1, 0, 0}, dw: 1, shift: -1, flt: 1})
 	}
 	for _, op := range []int{65, 66, 67, 68, 69, 70, 73, 74, 75, 76, 77, 78} {
@@ -81,6 +81,16 @@ var vecOps = func() []vop {
 		t = append(t, vop{fmt: "VOP3A", op: op, nsrc: 2, w: [3]int{1, 1, 0}, mdst: 2, shift: -1, flt: 1})
 	}
 	t = append(t, v3(258, 2).f(), v3(261, 2).f(), v3(449, 3).f(), v3(459, 3).f())
+	// binary64 (flt 3 = binary64 operands) and the conversions that read or write a register pair
+	for _, op := range []int{640, 641} { // v_add_f64, v_mul_f64
+		x := v3(op, 2)
+		x.w, x.dw, x.flt = [3]int{2, 2, 0}, 2, 3
+		t = append(t, x)
+	}
+	t = append(t, vop{fmt: "VOP1", op: 4, nsrc: 1, w: [3]int{1, 0, 0}, dw: 2, shift: -1})                // v_cvt_f64_i32
+	t = append(t, vop{fmt: "VOP1", op: 22, nsrc: 1, w: [3]int{1, 0, 0}, dw: 2, shift: -1, alus: "cdna3"}) // v_cvt_f64_u32
+	t = append(t, vop{fmt: "VOP1", op: 16, nsrc: 1, w: [3]int{1, 0, 0}, dw: 2, shift: -1, flt: 1})        // v_cvt_f64_f32
+	t = append(t, vop{fmt: "VOP1", op: 15, nsrc: 1, w: [3]int{2, 0, 0}, dw: 1, shift: -1, flt: 3})        // v_cvt_f32_f64
 	// VOP1
 	for _, op := range []int{1, 43, 44, 45} {
 		t = append(t, vop{fmt: "VOP1", op: op, nsrc: 1, w: [3]int{1, 0, 0}, dw: 1, shift: -1})
@@ -147,6 +157,51 @@ var fltCorners = []uint32{0x00000000, 0x80000000, 0x3f800000, 0xbf800000, 0x7f80
 	0x3fc00000, 0x40490fdb, 0x3f000000, 0xbf000000, 0x4b800000, 0x4b800001, 0x33800000, 0x34000001,
 	0xcf000001, 0x4f7fffff, 0x5f800000, 0xdf000000, 0x3f800001, 0x3f7fffff, 0xffc00001, 0x00400000}
 
+// corners of the one-operand binary32 opcodes (conversions to integer, v_trunc,
+// v_rndne): fltCorners plus halfway cases k+0.5 (even and odd k, both signs, up
+// to 2^23-0.5 where the fraction disappears), quarter cases, the saturation
+// boundaries 2^31-128, 2^31, 2^31+256, -2^31, -2^31-256, 2^32-256, 2^32,
+// 2^32+512, values just inside (-1, 1), huge magnitudes, signed NaNs.
+var fltUnary = append(append([]uint32{}, fltCorners...),
+	0x40200000, 0x40600000, 0xbfc00000, 0xc0200000, 0x40900000, 0xc0600000, 0x40b00000, 0x40d00000,
+	0xc0d00000, 0x40f00000, 0x447fe000, 0x44801000, 0x4affffff, 0x4afffffd, 0x4a7ffffe, 0x4a7ffffa,
+	0x4a7ffffd, 0x4a7fffff, 0xcaffffff, 0xca7ffffa, 0x4b000000, 0x4b000001, 0x4b7fffff, 0xcb800000,
+	0x3f400000, 0x3e800000, 0xbf400000, 0xbe800000, 0x3fa00000, 0x3fe00000, 0xbfa00000, 0x4e6e6b28,
+	0x4f32d05e, 0xce6e6b28, 0xcf32d05e, 0x47f12065, 0xc7f12065, 0x3dcccccd, 0x2edbe6ff, 0xceffffff,
+	0x4f000001, 0x4f800001, 0x5f000000, 0x7f000000, 0xbf800001, 0xbf7fffff, 0x477fff80, 0x47800040,
+	0x437f8000, 0x43804000, 0xc37f8000, 0x4f400000, 0x3effffff, 0x3f000001, 0xbeffffff, 0xbf000001,
+	0xff7fffff, 0x80000001, 0xff800001, 0x7fffffff, 0xffc00000, 0xdf800000, 0x4f7ffffe, 0xcefffffe,
+	0xcf800000, 0xcf7fffff, 0x3fbfffff, 0x3fc00001, 0x401fffff, 0x40200001, 0xc01fffff, 0xc0200001,
+	0x4b000002, 0x4b000003, 0xcb000001, 0x4a800001, 0x4a800003, 0x49800004, 0x4980000c, 0x34000000,
+	0xb4000000, 0x00000002, 0x007fffff, 0x80800000, 0x41200000, 0xc1200000, 0x42c80000, 0x42c90000)
+
+// binary64 corners: signed zeros, ones, infinities, NaNs, denormals, extremes,
+// the binary32 range boundaries (overflow to infinity at 2^128 - 2^103, the
+// halfway points around the largest binary32, the smallest binary32 denormal
+// 2^-149, its half (ties to even -> 0) and just above (-> 2^-149), halfway
+// cases of the 24-bit significand), values whose sum / product is inexact.
+var f64Corners = []uint64{0x0000000000000000, 0x8000000000000000, 0x3ff0000000000000, 0xbff0000000000000,
+	0x7ff0000000000000, 0xfff0000000000000, 0x7ff8000000000000, 0x7ff0000000000001,
+	0x0000000000000001, 0x800fffffffffffff, 0x0010000000000000, 0x7fefffffffffffff,
+	0x47efffffe0000000, 0x47effffff0000000, 0x47efffffefffffff, 0x47f0000000000000,
+	0x36a0000000000000, 0x3690000000000000, 0x3690000000000001, 0x36b8000000000000,
+	0x3ff0000010000000, 0x3ff0000030000000, 0x3ff0000010000001, 0x3ff000002fffffff,
+	0x3fb999999999999a, 0x400921fb54442d18, 0x3ff0000000000001, 0x3fefffffffffffff,
+	0xc7efffffe0000000, 0xfff8000000000001, 0x3810000000000000, 0x380fffffffffffff,
+	0x4340000000000000, 0x4340000000000001, 0x3ca0000000000000, 0x3ca0000000000001,
+	0xffefffffffffffff, 0x7fe0000000000000, 0x0008000000000000, 0x41e0000000000000}
+
+func f64Val(r *vh.Rng) uint64 {
+	switch r.Pick(4, 3, 3) {
+	case 0:
+		return f64Corners[r.Intn(len(f64Corners))]
+	case 1:
+		return r.U64()
+	default: // moderate magnitudes (also inside the binary32 range)
+		return r.U64()&0x800fffffffffffff | uint64(1023+r.Intn(60)-30)<<52
+	}
+}
+
 func fltVal(r *vh.Rng) uint32 {
 	switch r.Pick(4, 4, 2) {
 	case 0:
@@ -185,6 +240,17 @@ func vecCase(alu string, v vop, r *vh.Rng, mode int) Case {
 				}
 				if v.flt > 0 {
 					x = uint64(fltCorners[(idx+8*mode+4*k)%len(fltCorners)])
+					if v.nsrc == 1 { // 64 lanes x 2 grid cases walk the whole unary list
+						x = uint64(fltUnary[(l+64*mode)%len(fltUnary)])
+					}
+					if v.flt == 3 {
+						a8, b8 := l/8, l%8 // both operands walk all five groups of eight corners
+						x = []uint64{f64Corners[(a8+8*((b8+2*mode)%5))%len(f64Corners)],
+							f64Corners[(b8+8*((a8+1+3*mode)%5))%len(f64Corners)], 0}[k]
+						if v.nsrc == 1 {
+							x = f64Corners[(l+64*mode)%len(f64Corners)]
+						}
+					}
 				}
 			} else {
 				x = uint64(val32(r))
@@ -196,6 +262,9 @@ func vecCase(alu string, v vop, r *vh.Rng, mode int) Case {
 				}
 				if v.flt > 0 {
 					x = uint64(fltVal(r))
+				}
+				if v.flt == 3 {
+					x = f64Val(r)
 				}
 			}
 			val[k][l] = x
@@ -373,6 +442,9 @@ func vecCase(alu string, v vop, r *vh.Rng, mode int) Case {
 		} else {
 			g.c.Pre.EXEC = r.U64() | r.U64()
 			g.c.Pre.VCC = ^g.c.Pre.VCC
+			if v.flt > 0 && v.nsrc == 1 { // the second half of fltUnary must run in every lane
+				g.c.Pre.EXEC = 0xffffffffffffffff
+			}
 		}
 	} else {
 		switch r.Intn(8) {
